@@ -95,6 +95,15 @@ fn gen_rules(r: &mut Rng) -> Vec<String> {
             _ => gen::rule(r, false),
         });
     }
+    // a rule of the list again with nothing changed but its tag
+    if r.chance(1, 3) {
+        let base = v[r.below(v.len())].clone();
+        if let Some(i) = base.find("tag=") {
+            let end = base[i..].find(',').map(|k| i + k).unwrap_or(base.len());
+            let twin = format!("{}tag={}{}", &base[..i], r.pick(RULE_TAGS), &base[end..]);
+            if r.chance(1, 2) { v.push(twin) } else { v.insert(0, twin) }
+        }
+    }
     v
 }
 fn csp_spec(rules: &[NetworkFilter], tags: &HashSet<String>, req: &Request) -> Option<BTreeSet<String>> {
@@ -162,7 +171,29 @@ fn main() {
             set_apply(&mut set, o);
         }
         let (mr, fc) = (rp["matched_rule"].as_bool().unwrap_or(false), rp["force_check_exceptions"].as_bool().unwrap_or(false));
-        let res = check_state_p(&e, &rules, &set, &req, mr, fc).or_else(|| if has_bad_regex(&lines) { None } else { check_state_p(&eo, &rules, &set, &req, mr, fc).map(|m| format!("optimized engine: {}", m)) });
+        let mut res = check_state_p(&e, &rules, &set, &req, mr, fc).or_else(|| if has_bad_regex(&lines) { None } else { check_state_p(&eo, &rules, &set, &req, mr, fc).map(|m| format!("optimized engine: {}", m)) });
+        if res.is_none() && rp["live"].as_bool().unwrap_or(false) {
+            // live Blocker: every split of the list into a Blocker::new prefix and an add_filter rest
+            for cut in 0..=rules.len() {
+                let mut b = adblock::blocker::Blocker::new(rules[..cut].to_vec(), &adblock::blocker::BlockerOptions { enable_optimizations: false });
+                for f in rules[cut..].iter() { let _ = b.add_filter(f.clone()); }
+                for o in ops.iter() {
+                    match o {
+                        Op::Use(t) => b.use_tags(&t.iter().map(|s| &**s).collect::<Vec<_>>()),
+                        Op::Enable(t) => b.enable_tags(&t.iter().map(|s| &**s).collect::<Vec<_>>()),
+                        Op::Disable(t) => b.disable_tags(&t.iter().map(|s| &**s).collect::<Vec<_>>()),
+                        Op::Reload => {}
+                    }
+                }
+                let r0 = b.check_parameterised(&req, &adblock::resources::ResourceStorage::default(), mr, fc);
+                let got = V { matched: r0.matched, important: r0.important, exception: r0.exception.is_some(), filter: r0.filter.is_some() };
+                let want = spec_verdict_p(&rules, &set.iter().cloned().collect(), &req, mr, fc);
+                if got != want {
+                    res = Some(format!("live Blocker (Blocker::new on the first {} rules + add_filter): {:?}, rule-by-rule {:?}", cut, got, want));
+                    break;
+                }
+            }
+        }
         match res {
             Some(m) => {
                 println!("{}\nVIOLATION property=C07 replay={}", m, p.display());
@@ -187,6 +218,25 @@ fn main() {
         // fused rules must carry the right tag as well
         let mut eo = Engine::from_rules_parametrised(lines.iter(), Default::default(), true, true);
         let skip_opt = has_bad_regex(&lines);
+        // the same rules on a live Blocker: a prefix through Blocker::new, the rest one by one through
+        // add_filter (which has its own duplicate test per category); same tag operations, no reload
+        let mut live: Option<adblock::blocker::Blocker> = if lines.iter().any(|l| l.contains("badfilter")) { None } else {
+            let cut = r.below(rules.len() + 1);
+            let mut b = adblock::blocker::Blocker::new(rules[..cut].to_vec(), &adblock::blocker::BlockerOptions { enable_optimizations: false });
+            let mut seen: HashSet<u64> = rules[..cut].iter().map(|f| f.id).collect();
+            let mut refused = None;
+            for f in rules[cut..].iter() {
+                let fresh = seen.insert(f.id);
+                if b.add_filter(f.clone()).is_err() && fresh {
+                    refused = Some(f.raw_line.as_ref().map(|x| (**x).clone()).unwrap_or_default());
+                }
+            }
+            if let Some(l) = refused {
+                sm.failure(None, &format!("add_filter refused the rule {:?}, which was not loaded before (the list holds no duplicate of it)", l),
+                    json!({"rules": lines, "ops": [], "live_cut": cut, "url": "https://x.com/", "source": "https://a.com/", "type": "script"}));
+            }
+            Some(b)
+        };
         let mut set: BTreeSet<String> = BTreeSet::new();
         let nops = r.range(1, 8);
         let mut ops: Vec<Op> = vec![];
@@ -199,6 +249,14 @@ fn main() {
             };
             apply(&mut e, &lines, &o);
             apply(&mut eo, &lines, &o);
+            if let Some(b) = live.as_mut() {
+                match &o {
+                    Op::Use(t) => b.use_tags(&t.iter().map(|s| &**s).collect::<Vec<_>>()),
+                    Op::Enable(t) => b.enable_tags(&t.iter().map(|s| &**s).collect::<Vec<_>>()),
+                    Op::Disable(t) => b.disable_tags(&t.iter().map(|s| &**s).collect::<Vec<_>>()),
+                    Op::Reload => {}
+                }
+            }
             set_apply(&mut set, &o);
             ops.push(o);
             // query after every operation
@@ -211,6 +269,19 @@ fn main() {
             let desc = json!({"rules": lines, "ops": opsj, "url": url, "source": src, "type": ty, "matched_rule": mr, "force_check_exceptions": fc});
             if let Some(m) = check_state_p(&e, &rules, &set, &req, mr, fc) {
                 sm.failure(None, &m, desc.clone());
+            }
+            if let Some(b) = live.as_ref() {
+                sm.oracle_evaluations += 1;
+                cs.stat("live_blocker_new_plus_add_filter");
+                let res = b.check_parameterised(&req, &adblock::resources::ResourceStorage::default(), mr, fc);
+                let got = V { matched: res.matched, important: res.important, exception: res.exception.is_some(), filter: res.filter.is_some() };
+                let hs: HashSet<String> = set.iter().cloned().collect();
+                let want = spec_verdict_p(&rules, &hs, &req, mr, fc);
+                if got != want {
+                    let mut d = desc.clone();
+                    d["live"] = json!(true);
+                    sm.failure(None, &format!("live Blocker (Blocker::new on a prefix + add_filter): verdict {:?} but rule-by-rule under tags {:?} gives {:?}", got, set, want), d);
+                }
             }
             if !skip_opt {
                 sm.oracle_evaluations += 1;
